@@ -9,17 +9,33 @@ from props import _identity  # noqa: E402
 
 ID = 'C13'
 LEVEL = 'exploration'
-SIDECARS = []
-FUNCTIONS = []
+SIDECARS = ['replay_io']
+FUNCTIONS = ['src.utils.dump_program', 'src.utils.load_program', 'hephaestus.save_program',
+             'src.modules.processor.ProgramProcessor.get_program']
 SIDECARS = SIDECARS + [x for x in _identity.SIDECARS if x not in SIDECARS]
 FUNCTIONS = FUNCTIONS + [f for f in _identity.FUNCTIONS if f not in FUNCTIONS]
-TRUSTED = []
-ASSUMPTIONS = [
-    'bounded stand-in only (labelled bounded, nothing is counted as proved): the pickle protocol is an external library; the '
-    'contract of dump_program / load_program (read-back indistinguishable from the original) is evaluated at run time on '
-    'generated, erased and overwritten programs of a fixed seed list in four languages',
+TRUSTED = [
+    'the pickle library: Unpickled(Pickled(p)) is indistinguishable from p (uninterpreted ghosts; this round-trip law is the '
+    'property itself and is decided ONLY by the bounded part); pickle.dump / pickle.load / open as external contracts over a '
+    'ghost disk',
+    'save_program and ProgramProcessor.get_program are verified in slice mode (mkdir, save_text, generate_program havocked)',
 ]
-NOT_UNDER_CONTRACT = ['src.utils.dump_program', 'src.utils.load_program', 'src.modules.processor.ProgramProcessor.get_program']
+ASSUMPTIONS = [
+    'proved (the glue around pickle, for every path and program): dump_program pickles the program object it is given -- '
+    'itself -- in binary write mode into exactly the file named and touches no other file; load_program unpickles exactly the '
+    'content of the file named (binary read mode) and returns it unchanged; save_program dumps THE program whose text it '
+    'saves into <file>.bin next to the source; with --replay the processor reads exactly the file given and hands the '
+    'read-back on unchanged; no class under src/ customises pickling (syntactic census).  NOT proved -- bounded: the '
+    'round-trip law itself (read-back translates identically in every language, mutations replay, re-dump stable): '
+    'evaluated at run time on generated, erased and overwritten programs of a fixed seed list in four languages',
+]
+NOT_UNDER_CONTRACT = ['pickle (external library)']
+
+
+def custom_proof(tier):
+    """default pickling is what the trusted round-trip law is about: no class under src/ overrides it (syntactic)"""
+    from pyvc import statecheck, frontend
+    return statecheck.pickle_hook_census(frontend.Frontend(os.environ.get('HEPH_REPO', '/repo')))
 
 from props import C13_bounded as _b   # noqa: E402
 bounded = _b.bounded
